@@ -32,10 +32,14 @@ type propCfg struct {
 	quickN    int
 	thoroughN int
 	recycle   int
-	rule      string
-	assume    []string
-	real      []string
-	stub      []string
+	// second phase: one extra episode per subEvery main episodes, generated under
+	// the job property subProp and run in the ordinary (non-race) build
+	subProp  string
+	subEvery int
+	rule     string
+	assume   []string
+	real     []string
+	stub     []string
 }
 
 var props = map[string]*propCfg{}
@@ -156,18 +160,28 @@ func cmdRun(args []string) int {
 		usage()
 	}
 	pc := props[args[0]]
+	genProp, race := args[0], false
+	if pc == nil {
+		for _, q := range props {
+			if q.subProp == args[0] {
+				pc = q
+			}
+		}
+	} else {
+		race = pc.race
+	}
 	if pc == nil {
 		fmt.Fprintln(os.Stderr, "unknown property", args[0])
 		return 2
 	}
 	seed, _ := strconv.ParseUint(args[1], 10, 64)
-	bin, err := buildWorker(pc.race)
+	bin, err := buildWorker(race)
 	if err != nil {
 		fmt.Fprintln(os.Stderr, err)
 		return 2
 	}
-	p := gen.Generate(pc.id, seed, "quick")
-	cfg := poolCfg{bin: bin, gomaxprocs: 1, race: pc.race, raceLogDir: raceDir()}
+	p := gen.Generate(genProp, seed, "quick")
+	cfg := poolCfg{bin: bin, gomaxprocs: 1, race: race, raceLogDir: raceDir()}
 	res := runOne(cfg, p, true)
 	printResult(p, res)
 	return 0
@@ -221,12 +235,13 @@ func cmdReplay(args []string) int {
 		fmt.Fprintln(os.Stderr, "unknown property in replay file")
 		return 2
 	}
-	bin, err := buildWorker(pc.race)
+	race := pc.race && rf.Plan.Prop != pc.subProp
+	bin, err := buildWorker(race)
 	if err != nil {
 		fmt.Fprintln(os.Stderr, err)
 		return 2
 	}
-	cfg := poolCfg{bin: bin, gomaxprocs: 1, race: pc.race, raceLogDir: raceDir()}
+	cfg := poolCfg{bin: bin, gomaxprocs: 1, race: race, raceLogDir: raceDir()}
 	res := runOne(cfg, rf.Plan, true)
 	n := len(res.Trace)
 	from := 0
@@ -478,16 +493,42 @@ func cmdCheck(args []string) int {
 	for i := range jobs {
 		jobs[i] = Job{ID: i, Prop: id, Seed: plan.EpisodeSeed(base, id, uint64(i)), Tier: *tier}
 	}
+	// second phase (see propCfg.subProp): its jobs follow the main ones
+	var subJobs []Job
+	var cfgSub poolCfg
+	if pc.subProp != "" {
+		m := n / pc.subEvery
+		if m == 0 {
+			m = 1
+		}
+		binSub, err := buildWorker(false)
+		if err != nil {
+			fmt.Fprintln(os.Stderr, err)
+			return 2
+		}
+		cfgSub = poolCfg{bin: binSub, gomaxprocs: 1, recycle: pc.recycle}
+		for i := 0; i < m; i++ {
+			subJobs = append(subJobs, Job{ID: n + i, Prop: pc.subProp, Seed: plan.EpisodeSeed(base, pc.subProp, uint64(i)), Tier: *tier})
+		}
+		jobs = append(jobs, subJobs...)
+		fmt.Printf("second phase: %d %s episodes in the ordinary build\n", m, pc.subProp)
+	}
+	cfgOf := func(prop string) poolCfg {
+		if prop == pc.subProp && prop != "" {
+			return cfgSub
+		}
+		return cfg
+	}
 	a := newAgg()
-	digests := make([]string, n)
-	verdicts := make([]string, n)
+	digests := make([]string, len(jobs))
+	verdicts := make([]string, len(jobs))
 	raceTexts := map[int]string{}
 	var viols []violationRec
 	var infra []string
 	var samples []interface{}
 	runStart := time.Now()
 	done := 0
-	err = runJobs(cfg, nw, jobs, func(j *Job, r *EpisodeResult) {
+	onResult := func(j *Job, r *EpisodeResult) {
 		done++
 		if done%100000 == 0 {
 			fmt.Printf("  ... %d/%d episodes, %s\n", done, n, fmtDur(time.Since(runStart)))
@@ -518,13 +559,21 @@ func cmdCheck(args []string) int {
 		if cl != "" {
 			viols = append(viols, violationRec{job: *j, res: r, class: cl})
 		}
-		if len(samples) < 3 && r.Nontrivial && cl == "" {
+		if len(samples) < 3 && r.Nontrivial && cl == "" && j.Prop == id {
 			samples = append(samples, sampleOf(id, j.Seed, *tier, r))
 		}
-	})
+	}
+	err = runJobs(cfg, nw, jobs[:n], onResult)
 	if err != nil {
 		fmt.Fprintln(os.Stderr, "worker pool:", err)
 		return 2
+	}
+	if len(subJobs) > 0 {
+		err = runJobs(cfgSub, runtime.NumCPU(), subJobs, onResult)
+		if err != nil {
+			fmt.Fprintln(os.Stderr, "worker pool:", err)
+			return 2
+		}
 	}
 	runWall := time.Since(runStart)
 	fmt.Printf("%d episodes in %s (%.0f episodes/hour), %d decisions, %d VM steps, %.3f simulated seconds\n",
@@ -551,10 +600,14 @@ func cmdCheck(args []string) int {
 	for i := 0; i < k; i++ {
 		det = append(det, jobs[(i*7919)%n])
 	}
+	var detSub []Job
+	for i := 0; i < k && i < len(subJobs); i++ {
+		detSub = append(detSub, subJobs[(i*7919)%len(subJobs)])
+	}
 	cfg2 := cfg
 	cfg2.gomaxprocs = 4
 	mism := 0
-	err = runJobs(cfg2, 3, det, func(j *Job, r *EpisodeResult) {
+	onDet := func(j *Job, r *EpisodeResult) {
 		if r.Digest != digests[j.ID] || classOf(r) != verdicts[j.ID] {
 			if mism < 5 {
 				fmt.Fprintf(os.Stderr, "NONDETERMINISM: seed %d digest %s/%s verdict %q/%q\n", j.Seed, digests[j.ID], r.Digest, verdicts[j.ID], classOf(r))
@@ -567,7 +620,14 @@ func cmdCheck(args []string) int {
 			}
 			mism++
 		}
-	})
+	}
+	err = runJobs(cfg2, 3, det, onDet)
+	if err == nil && len(detSub) > 0 {
+		cfgSub2 := cfgSub
+		cfgSub2.gomaxprocs = 4
+		err = runJobs(cfgSub2, 3, detSub, onDet)
+		k += len(detSub)
+	}
 	if err != nil {
 		fmt.Fprintln(os.Stderr, "worker pool:", err)
 		return 2
@@ -604,8 +664,8 @@ func cmdCheck(args []string) int {
 			continue
 		}
 		first := recs[0]
-		p := gen.Generate(id, first.job.Seed, *tier)
-		path, ok := minimiseAndRecord(cfg, pc, p, cl, first.res)
+		p := gen.Generate(first.job.Prop, first.job.Seed, *tier)
+		path, ok := minimiseAndRecord(cfgOf(first.job.Prop), pc, p, cl, first.res)
 		if !ok && strings.HasPrefix(cl, "crash:hang:") {
 			// a hang that does not repeat in a fresh process was the machine, not the code
 			fmt.Printf("note: %d episode(s) hit the watchdog (first seed %d) but ran normally when repeated alone; counted as inconclusive\n", len(recs), first.job.Seed)
@@ -721,31 +781,31 @@ func sampleOf(id string, seed uint64, tier string, r *EpisodeResult) interface{}
 func writeEvidence(pc *propCfg, tier string, seed uint64, a *agg, runWall, wall time.Duration, nViol int, known map[string]int, detK int, samples []interface{}) {
 	evals := a.evals // executions: one per episode, or the number of runs/sub-episodes an episode performed
 	cov := map[string]interface{}{
-		"evaluations":         evals,
-		"episodes":            a.episodes,
-		"distinct_nontrivial": len(a.nontrivialCases),
-		"rule":                pc.rule,
-		"samples":             samples,
-		"episodes_per_hour":   int(float64(a.episodes) / runWall.Hours()),
-		"simulated_seconds":   float64(a.simNs) / 1e9,
-		"controller_decisions": a.decisions,
-		"context_switches":    a.switches,
-		"vm_instructions":     a.vmSteps,
-		"faults_fired":        a.fired,
-		"probes":              a.probes,
-		"distinct_interleavings": len(a.interleavings),
-		"distinct_interleavings_measure": "distinct hashes of the sequence of (thread, site) at context switches, per distinct case",
+		"evaluations":                       evals,
+		"episodes":                          a.episodes,
+		"distinct_nontrivial":               len(a.nontrivialCases),
+		"rule":                              pc.rule,
+		"samples":                           samples,
+		"episodes_per_hour":                 int(float64(a.episodes) / runWall.Hours()),
+		"simulated_seconds":                 float64(a.simNs) / 1e9,
+		"controller_decisions":              a.decisions,
+		"context_switches":                  a.switches,
+		"vm_instructions":                   a.vmSteps,
+		"faults_fired":                      a.fired,
+		"probes":                            a.probes,
+		"distinct_interleavings":            len(a.interleavings),
+		"distinct_interleavings_measure":    "distinct hashes of the sequence of (thread, site) at context switches, per distinct case",
 		"distinct_abstract_states_estimate": a.distinctStates(),
 		"distinct_abstract_states_measure":  "bottom-4096 sketch over hashes of (site of every thread, cancel flags, opcode and frame-depth bucket of parked VMs)",
-		"distinct_cases":      len(a.cases),
-		"shapes":              a.shapes,
-		"inconclusive":        a.inconclusive,
-		"max_threads":         a.maxThreads,
-		"determinism_selftest": fmt.Sprintf("%d episodes re-executed (GOMAXPROCS 4, 3 workers): identical digests and verdicts", detK),
-		"components_real":     pc.real,
-		"components_stub":     pc.stub,
-		"known_findings_seen": known,
-		"exhaustive":          false,
+		"distinct_cases":                    len(a.cases),
+		"shapes":                            a.shapes,
+		"inconclusive":                      a.inconclusive,
+		"max_threads":                       a.maxThreads,
+		"determinism_selftest":              fmt.Sprintf("%d episodes re-executed (GOMAXPROCS 4, 3 workers): identical digests and verdicts", detK),
+		"components_real":                   pc.real,
+		"components_stub":                   pc.stub,
+		"known_findings_seen":               known,
+		"exhaustive":                        false,
 	}
 	ev := map[string]interface{}{
 		"property_id": pc.id,
